@@ -3820,6 +3820,7 @@ static int bufr_load_datasubsets( FILE *fp, BUFR_Dataset *dts, int lineno, BUFR_
             bufr_print_debug( errmsg );
             }
 
+         i = 0; /* strtok_r moved ptr: the old index no longer applies */
          len = strlen( ptr );
          while ((ptr[i] != ')') && (i < len)) ++i;
          if (ptr[i] == ')') i += 1;
